@@ -14,7 +14,7 @@ import (
 	"verif/harness/spec"
 )
 
-const ruleC07 = "objects with 2..12 keys from a set that orders differently by byte, by rune, by UTF-16 unit and by length ('a','B','aa','b','é','z','10','9','', U+FFFF, U+10000, ...), nested 1..3 levels, distinct leaves; for each logical document 3..6 physically different equal Go maps (different insertion orders, with/without pre-sizing, insert-then-delete of extra keys); paths with wildcard, filter, recursive, multi-name and union steps; each (path, map) evaluated 3..10 times interleaved with evaluations on maps of other sizes (recycles the pooled key buffers). " +
+const ruleC07 = "objects with 2..12 keys from a set that orders differently by byte, by rune, by UTF-16 unit and by length ('a','B','aa','b','é','z','10','9','', U+FFFF, U+10000, ...), nested 1..3 levels, distinct leaves; for each logical document 3..6 physically different equal Go maps (different insertion orders, with/without pre-sizing, insert-then-delete of extra keys, equal subtrees held once and referenced twice or held as separate objects); then one member of a map just traversed is renamed in place and the path evaluated again on it and on a freshly built equal map; paths with wildcard, filter, recursive, multi-name and union steps; each (path, map) evaluated 3..10 times interleaved with evaluations on maps of other sizes (recycles the pooled key buffers). " +
 	"Oracle: every repetition on every physical copy returns the same sequence, equal to SPEC (keys ascending byte-wise — cross-checked against the order encoding/json.Marshal prints — arrays by index, union/multi as written, '..' pre-order). " +
 	"Non-trivial: the root object (or an object under it) has >=3 keys whose byte order differs from the order they were generated in. Distinct = distinct (path, document)."
 
@@ -46,6 +46,17 @@ func c07Object(rt *rapid.T, depth int) *gen.DNode {
 
 func drawC07(rt *rapid.T) *Case {
 	d := gen.DistinctLeaves(c07Object(rt, 1+gen.Uniform(rt, "depth", 3)))
+	if gen.Uniform(rt, "twin", 3) == 0 {
+		// the same subtree under two keys: equal values that some physical copies hold as ONE Go
+		// object referenced twice and others as two separate objects
+		src := d.Kids[gen.Uniform(rt, "twinsrc", len(d.Kids))]
+		for _, k := range []string{"twin", "shipping_twin", "0twin"} {
+			if d.Get(k) == nil {
+				d.Set(k, src.Clone())
+				break
+			}
+		}
+	}
 	keys := d.Keys
 	k1 := keys[gen.Uniform(rt, "k1", len(keys))]
 	k2 := keys[gen.Uniform(rt, "k2", len(keys))]
@@ -89,6 +100,19 @@ func drawC07(rt *rapid.T) *Case {
 
 // buildPhysical constructs the document as Go maps with a seed-dependent physical layout.
 func buildPhysical(d *gen.DNode, seed *uint64) interface{} {
+	return buildPhysicalMemo(d, seed, nil)
+}
+
+// buildPhysicalMemo: with a non-nil memo, equal container subtrees (same JSON text) are built
+// once and referenced from every place they occur.
+func buildPhysicalMemo(d *gen.DNode, seed *uint64, memo map[string]interface{}) (out interface{}) {
+	if memo != nil && (d.K == gen.DObj || d.K == gen.DArr) && len(d.Kids) > 0 {
+		key := d.JSON()
+		if v, ok := memo[key]; ok {
+			return v
+		}
+		defer func() { memo[key] = out }()
+	}
 	next := func(n int) int {
 		*seed = *seed*6364136223846793005 + 1442695040888963407
 		return int((*seed >> 33) % uint64(n))
@@ -119,7 +143,7 @@ func buildPhysical(d *gen.DNode, seed *uint64) interface{} {
 			}
 		}
 		for _, i := range order {
-			m[d.Keys[i]] = buildPhysical(d.Kids[i], seed)
+			m[d.Keys[i]] = buildPhysicalMemo(d.Kids[i], seed, memo)
 		}
 		if junk {
 			for i := 0; i < 20; i++ {
@@ -130,7 +154,7 @@ func buildPhysical(d *gen.DNode, seed *uint64) interface{} {
 	case gen.DArr:
 		a := make([]interface{}, len(d.Kids))
 		for i, k := range d.Kids {
-			a[i] = buildPhysical(k, seed)
+			a[i] = buildPhysicalMemo(k, seed, memo)
 		}
 		return a
 	}
@@ -210,7 +234,11 @@ func checkC07(c *Case, st *Stats) string {
 	want := res.Values()
 	for li, layout := range layouts {
 		seed := uint64(layout)*2654435761 + 1
-		doc := buildPhysical(c.Doc, &seed)
+		var memo map[string]interface{}
+		if layout%2 == 1 {
+			memo = map[string]interface{}{}
+		}
+		doc := buildPhysicalMemo(c.Doc, &seed, memo)
 		if li == 0 {
 			if m, ok := doc.(map[string]interface{}); ok {
 				mk := marshalKeyOrder(m)
@@ -239,6 +267,9 @@ func checkC07(c *Case, st *Stats) string {
 			_, _ = other(c07Other[(li+r)%len(c07Other)])
 		}
 	}
+	if msg := c07RenameInPlace(c, f, st, layouts, reps); msg != "" {
+		return msg
+	}
 	// non-triviality
 	nt := false
 	var walk func(d *gen.DNode)
@@ -261,6 +292,75 @@ func checkC07(c *Case, st *Stats) string {
 		st.NonTrivialCase(c.Path+"\x00"+docText, func() interface{} {
 			return map[string]interface{}{"path": c.Path, "doc": docText, "physical_copies": len(layouts), "repetitions": reps, "sequence": JSONString(want)}
 		})
+	}
+	return ""
+}
+
+// c07RenameInPlace: a map the parsed function has just traversed is edited in place (one member
+// renamed, so its size stays the same) and evaluated again: the sequence must be that of the
+// document as it is now, the same as on an independently built equal map.
+func c07RenameInPlace(c *Case, f func(interface{}) ([]interface{}, error), st *Stats, layouts []int, reps int) string {
+	if len(c.Doc.Keys) == 0 {
+		return ""
+	}
+	seed := uint64(layouts[0])*2654435761 + 99
+	doc := buildPhysical(c.Doc, &seed)
+	m, ok := doc.(map[string]interface{})
+	if !ok {
+		return ""
+	}
+	_, _ = f(doc)
+	// choose the member and its new name from the layout number (deterministic for replay)
+	old := c.Doc.Keys[layouts[0]%len(c.Doc.Keys)]
+	var fresh string
+	for i := 0; i < len(c07Keys); i++ {
+		k := c07Keys[(layouts[0]/7+i)%len(c07Keys)]
+		if c.Doc.Get(k) == nil {
+			fresh = k
+			break
+		}
+	}
+	if fresh == "" {
+		return ""
+	}
+	v := m[old]
+	delete(m, old)
+	m[fresh] = v
+	d2 := c.Doc.Clone()
+	for i, k := range d2.Keys {
+		if k == old {
+			d2.Keys[i] = fresh
+		}
+	}
+	res := spec.Eval(c.AST, d2.Build(false), gen.PureFuncs{})
+	if res.Unspecified {
+		return ""
+	}
+	want := res.Values()
+	seed2 := uint64(layouts[0])*2654435761 + 7
+	other := buildPhysical(d2, &seed2)
+	st.Class("renamed-in-place")
+	for r := 0; r < 2; r++ {
+		for which, target := range []interface{}{doc, other} {
+			got, rerr := f(target)
+			st.Eval(1)
+			where := "the map edited in place"
+			if which == 1 {
+				where = "an independently built equal map"
+			}
+			if len(want) == 0 {
+				if rerr == nil {
+					return fmt.Sprintf("after renaming member %q to %q: SPEC selects nothing, on %s the library returned %s", old, fresh, where, JSONString(got))
+				}
+				continue
+			}
+			if rerr != nil {
+				return fmt.Sprintf("after renaming member %q to %q: on %s the library failed: %v (expected %s)", old, fresh, where, rerr, JSONString(want))
+			}
+			if !reflect.DeepEqual(got, want) {
+				return fmt.Sprintf("after renaming member %q to %q: on %s the library returned\n   got  %s\n   want %s", old, fresh, where, JSONString(got), JSONString(want))
+			}
+		}
 	}
 	return ""
 }
